@@ -158,6 +158,9 @@ def is_(a, b):
 def contains(container, item):
     if isinstance(container, Choice):
         container = container.force()
+    if container.__class__ is dict and (has_sym_keys(container) or _symkey(item)):
+        r = disj(_t(as_cond(eq_any(item, e))) for e in container)
+        return r if r.__class__ is Bit else bool(r)
     if _sym(item) or item.__class__ is Choice or (isinstance(item, tuple) and any(_sym(e) or e.__class__ is Choice for e in item)):
         if isinstance(container, (list, tuple, set, frozenset)) or isinstance(container, dict):
             return disj(_t(as_cond(eq_any(item, e))) for e in container) if True else None
@@ -605,7 +608,38 @@ def _xb(tab, i):
     return r
 
 
+def _symkey(k):
+    c = k.__class__
+    if c is Bit or c is SInt or c is SBytes:
+        return True
+    if c is tuple:
+        return any(_symkey(e) for e in k)
+    return False
+
+
+_symdict_cache = {}
+
+
+def has_sym_keys(d):
+    """does this dict hold symbolic keys (inserted through their constant hash)?  cached per (id, len)"""
+    n = len(d)
+    if n == 0 or n > 4096:
+        return False
+    hit = _symdict_cache.get(id(d))
+    if hit is not None and hit[0] == n and hit[2] is d:
+        return hit[1]
+    flag = any(_symkey(k) for k in d)
+    if len(_symdict_cache) > 10000:
+        _symdict_cache.clear()
+    _symdict_cache[id(d)] = (n, flag, d)
+    return flag
+
+
 def getitem(obj, key):
+    if obj.__class__ is dict and has_sym_keys(obj) and not (key.__class__ is Bit or key.__class__ is SInt or key.__class__ is Choice):
+        return dict_lookup(obj, key)
+    if key.__class__ is SBytes and obj.__class__ is dict:
+        return dict_lookup(obj, key)
     if key.__class__ is Bit or key.__class__ is SInt:
         if isinstance(obj, (list, tuple)):
             return mux(obj, key)
@@ -1023,7 +1057,7 @@ def call(f, *a, **k):
     slf = getattr(f, "__self__", None)
     if slf is not None and not isinstance(slf, type):
         name = getattr(f, "__name__", "")
-        if isinstance(slf, dict) and name == "get" and a and (_sym(a[0]) or a[0].__class__ is Choice or (isinstance(a[0], tuple) and any(_sym(e) or e.__class__ is Choice for e in a[0]))):
+        if isinstance(slf, dict) and name == "get" and a and (_sym(a[0]) or a[0].__class__ is Choice or _symkey(a[0]) or has_sym_keys(slf) or (isinstance(a[0], tuple) and any(_sym(e) or e.__class__ is Choice for e in a[0]))):
             return dict_lookup(slf, a[0], a[1] if len(a) > 1 else None)
         if isinstance(slf, list) and name == "index" and a and isinstance(a[0], list) and any(_sym(e) for e in a[0]):
             return list_index(slf, a[0])
